@@ -71,7 +71,22 @@ def make(pname, gridding, file_dir=None, tol=None, rel=False, gopts=None):
          1j*r.standard_normal(survey.shape))*1e-10
     survey.data['observed'] = (survey.data.observed.dims, d)
     kw = {}
-    if gridding != 'same':
+    if gridding in ('input', 'dict'):
+        # user-provided computational grids: one with the SAME number of
+        # cells as the model grid but other widths and origin, one finer
+        hs = [np.array([100., 115, 95, 120])*s for s in (1.1, 1.0, 1.05)]
+        g_same = emg3d.TensorMesh(hs, origin=(-215., -215., -400.))
+        hf = [np.array([60., 55, 50, 50, 55, 60, 70, 80])*s
+              for s in (1.0, 1.05, 0.95)]
+        g_fine = emg3d.TensorMesh(hf, origin=(-240., -250., -410.))
+        if gridding == 'input':
+            kw['gridding_opts'] = g_same
+        else:
+            kw['gridding_opts'] = {
+                sk: {fk: (g_same, g_fine)[(i + j) % 2]
+                     for j, fk in enumerate(survey.frequencies)}
+                for i, sk in enumerate(survey.sources)}
+    elif gridding != 'same':
         kw['gridding_opts'] = dict(GOPTS_D if gopts == 'distance' else GOPTS)
     so = {} if tol is None else {'tol': tol, 'maxit': 200}
     sim = emg3d.Simulation(survey, model, max_workers=1, gridding=gridding,
@@ -131,6 +146,10 @@ def case(c):
                         out = np.array(sim.jtvec(w.reshape(shape)))
                         T[:, k] = out.reshape((nb, nc), order='F').ravel() \
                             if nb > 1 else out.ravel('F')
+                # state after jtvec(w) with arbitrary w: the stored residual
+                # and the misfit gradient are those of the data
+                res_mid = np.array(sim.data.residual.data)
+                g_mid = np.array(sim.gradient)
                 gt = np.array(sim.jtvec(res*wts))
                 g_after = np.array(sim.gradient)
             tol = 1e-8 if not real else 2e-6
@@ -149,6 +168,16 @@ def case(c):
             if not np.abs(g_after - g).max() <= max(tol, 1e-7)*gs:
                 V('gradient-changed-by-jvec-jtvec-calls',
                   f'rel. difference {np.abs(g_after - g).max()/gs:.2e}')
+            if not np.abs(g_mid - g).max() <= max(tol, 1e-7)*gs:
+                V('gradient-after-jtvec-of-other-vector-is-not-the-misfit-'
+                  'gradient',
+                  f'rel. difference {np.abs(g_mid - g).max()/gs:.2e}')
+            fin_ = np.isfinite(res)
+            if not np.array_equal(np.isfinite(res_mid), fin_) or not np.abs(
+                    res_mid[fin_] - res[fin_]).max() <= 1e-9*np.abs(
+                        res[fin_]).max():
+                V('stored-residual-changed-by-jtvec',
+                  'data.residual after jtvec(w) is not synthetic - observed')
             if gridding == 'same':
                 ref = adjoint.Reference(sim)
                 Jr = ref.jacobian().reshape(nd, nb*nc)
@@ -227,6 +256,8 @@ def run(ctx):
             if q and p in ('hti',) and g not in ('same', 'both'):
                 continue
             cs.append({'problem': p, 'gridding': g})
+    cs += [{'problem': p, 'gridding': g} for g in ('input', 'dict')
+           for p in (('iso', 'vti') if q else PROBLEMS)]
     cs += [{'problem': 'iso', 'gridding': g, 'file': True}
            for g in ('same', 'both')]
     cs += [{'problem': 'vti', 'gridding': 'same', 'rel': True},
